@@ -1,0 +1,18 @@
+//go:build verif
+
+// Verification hooks (read-only): compiled only with -tags verif.
+
+package framing
+
+// VerifState returns copies of the encoder's secretbox key, nonce prefix and the
+// current nonce counter (the DRBG seed is not retained by the encoder).
+func (encoder *Encoder) VerifState() (key []byte, noncePrefix []byte, counter uint64) {
+	return append([]byte(nil), encoder.key[:]...), append([]byte(nil), encoder.nonce.prefix[:]...), encoder.nonce.counter
+}
+
+// VerifState returns copies of the decoder's secretbox key, nonce prefix, the current
+// nonce counter and the pending frame length state.
+func (decoder *Decoder) VerifState() (key []byte, noncePrefix []byte, counter uint64, nextLength uint16, nextLengthInvalid bool) {
+	return append([]byte(nil), decoder.key[:]...), append([]byte(nil), decoder.nonce.prefix[:]...),
+		decoder.nonce.counter, decoder.nextLength, decoder.nextLengthInvalid
+}
